@@ -456,3 +456,27 @@ Proof.
   intros debug op a b v Wa Wb F H.
   apply (eval_bin_agrees debug op a b Wa Wb); [rewrite F; apply orb_true_r | exact H].
 Qed.
+
+(** agreement on everything outside the known-finding class and the class carried by correspondence *)
+Lemma eval_bin_agrees_guarded : forall debug op a b v,
+  wf_value a = true -> wf_value b = true -> Known_C04 op a b = false -> By_correspondence_C04 op a b = false ->
+  eval_bin debug op a b = Ok (Some v) ->
+  exists v', py_eval op (to_py a) (to_py b) = PyOk v' /\ same_value v v'.
+Proof.
+  intros debug op a b v Wa Wb K C H.
+  destruct (int_fragment op a b || float_fragment op a b) eqn:F.
+  - exact (eval_bin_agrees debug op a b Wa Wb F v H).
+  - exfalso.
+    destruct a as [l|l|l|l|]; [| | | |discriminate Wa];
+    destruct b as [r|r|r|r|]; try discriminate Wb;
+    destruct op; try discriminate F; try discriminate K; try discriminate C;
+    cbn [eval_bin eval_or eval_and eval_xor none] in H; discriminate H.
+Qed.
+
+Lemma known_class_refuted : exists op a b v,
+  wf_value a = true /\ wf_value b = true /\ Known_C04 op a b = true /\
+  eval_bin true op a b = Ok (Some v) /\ forall v', py_eval op (to_py a) (to_py b) <> PyOk v'.
+Proof.
+  exists OPow, (VFloat (S754_zero false)), (VFloat (Z2F (-1))), VFloatUnk.
+  repeat split; try reflexivity. intros v' E. discriminate E.
+Qed.
